@@ -178,7 +178,9 @@ Proof.
   - destruct (is_select (rk y)).
     + destruct (q_nonempty (ms y)); [apply R_stp; exact Hy|]. apply (R_stp LPollThrow y Hy).
     + apply R_fold; [intros z a Hz; apply R_mark_nval; exact Hz|]. apply R_stp. exact Hy.
-  - destruct (choose y (filter (fd_ready y) (seq 0 (length (os y))))); [apply R_stp; exact Hy|].
+  - destruct (pickall y && match choose y (filter (fd_ready y) (seq 0 (length (os y)))) with Some _ => true | None => false end);
+      [apply R_stp; exact Hy|].
+    destruct (choose y (filter (fd_ready y) (seq 0 (length (os y))))); [apply R_stp; exact Hy|].
     destruct (woken (ms y)); [apply R_stp; exact Hy|]. apply R_stp, R_nothing_ready. exact Hy.
 Qed.
 
@@ -198,9 +200,9 @@ Proof.
   - apply IH, R_poll_phase. exact H.
 Qed.
 
-Lemma R_run_script fuel r hi nfd ph bd : R (fst (run_script fuel r hi nfd ph bd)).
+Lemma R_run_script fuel r hi al nfd ph bd : R (fst (run_script fuel r hi al nfd ph bd)).
 Proof.
   unfold run_script. cbv zeta. apply R_run_sim.
-  assert (R (sim0 r hi nfd ph bd)) as H0. { unfold R, sim0. cbn [ms]. apply reach_tick0. }
-  destruct (phases (sim0 r hi nfd ph bd)); [exact H0|]. apply R_do_ops. exact H0.
+  assert (R (sim0 r hi al nfd ph bd)) as H0. { unfold R, sim0. cbn [ms]. apply reach_tick0. }
+  destruct (phases (sim0 r hi al nfd ph bd)); [exact H0|]. apply R_do_ops. exact H0.
 Qed.
